@@ -1,6 +1,7 @@
 // Command "exec": executes sequential submission histories enumerated by ExecSeq.tla on the real executors with
 // REUSED job objects (properties C05, C07).  Input, one program per line, tokens "<executor><job>" or "D":
 //   M1 M2 D S1        executors: M manual, S / T strands over M, R strand over a rejecting executor, I inline, J stopped inline
+//   chain=1S2 M1 D    (first token, optional) job 1 submits job 2 to S from inside its Call, unless job 2 is queued
 // Output per line:  <index> calls=a,b,c;drops=a,b,c;log=c1,c2,d3,...
 #include "common.hpp"
 
@@ -20,11 +21,20 @@ std::string* g_log = nullptr;
 
 struct CountJob final : yaclib::Job {
   int id = 0, calls = 0, drops = 0;
+  bool queued = false;                    // sitting in some executor's queue (the client may not submit it again)
+  yaclib::IExecutor* chain_to = nullptr;  // re-entrant submission from inside Call
+  CountJob* chain_job = nullptr;
   void Call() noexcept final {
+    queued = false;
     ++calls;
     *g_log += (g_log->empty() ? "" : ",") + std::string("c") + std::to_string(id);
+    if (chain_to != nullptr && !chain_job->queued) {
+      chain_job->queued = true;
+      chain_to->Submit(*chain_job);
+    }
   }
   void Drop() noexcept final {
+    queued = false;
     ++drops;
     *g_log += (g_log->empty() ? "" : ",") + std::string("d") + std::to_string(id);
   }
@@ -69,11 +79,22 @@ std::string Run(const std::string& line) {
     std::istringstream is(line);
     std::string tok;
     while (is >> tok) {
+      if (tok.rfind("chain=", 0) == 0) {
+        const char e = tok[7];
+        jobs[0].chain_job = &jobs[1];
+        jobs[0].chain_to = e == 'M'   ? static_cast<yaclib::IExecutor*>(&m)
+                           : e == 'S' ? s.Get()
+                           : e == 'T' ? t.Get()
+                           : e == 'R' ? r.Get()
+                                      : &inl;
+        continue;
+      }
       if (tok == "D") {
         (void)m.Drain();
         continue;
       }
       auto& job = jobs[tok[1] - '1'];
+      job.queued = true;  // cleared by Call / Drop (at once for the executors that do not queue)
       switch (tok[0]) {
         case 'M':
           m.Submit(job);
